@@ -339,6 +339,131 @@ def run_attr_scenario(provs, kinds, inits, pol, attach_at, res=None):
     return None, steps
 
 
+# -- a listener attached from inside a callback -----------------------------------------------------
+
+IN_GROUPS = ("before_transition", "on_exit_state", "on_transition", "on_enter_state",
+             "after_transition")
+IN_POINTS = ("vld", "ok") + IN_GROUPS
+
+
+def in_callback_cases():
+    out = []
+    for asyn in (False, True):
+        for point in IN_POINTS:
+            for who in ("listener", "machine", "model"):
+                for at in ("first-event", "second-event", "activation"):
+                    if at == "activation" and point != "on_enter_state":
+                        continue
+                    out.append((asyn, point, who, at))
+    return out
+
+
+def run_in_callback(asyn, point, who, at):
+    """A callback of group `point` (provided by a constructor listener, the machine or the model)
+    calls machine.add_listener(B) while that very group is being executed.  The event must
+    complete normally; B receives every later group of that event exactly once (the running
+    group itself: at most once) and every group of the following events exactly once."""
+    from statemachine import State, StateMachine
+    from statemachine.factory import StateMachineMetaclass
+    log = []
+    arm = {"n": 0}
+
+    def mk(label, g, attach=None):
+        if asyn:
+            async def f(self, machine, event):
+                log.append((label, g, str(event)))
+                if attach is not None:
+                    attach(machine, str(event))
+                return True
+        else:
+            def f(self, machine, event):
+                log.append((label, g, str(event)))
+                if attach is not None:
+                    attach(machine, str(event))
+                return True
+        f.__name__ = g
+        return f
+
+    B = type("B", (), {g: mk("B", g) for g in IN_GROUPS})
+    b = B()
+    want_event = {"first-event": ("go", 1), "second-event": ("go", 2),
+                  "activation": ("__initial__", 1)}[at]
+
+    def attach(machine, event):
+        if event == want_event[0]:
+            arm["n"] += 1
+            if arm["n"] == want_event[1]:
+                machine.add_listener(b)
+
+    provider_ns = {point: mk("P", point, attach)}
+    sm_ns = {g: mk("sm", g) for g in IN_GROUPS}
+    for nm in ("vld", "ok"):
+        sm_ns.setdefault(nm, mk("sm", nm))
+    sa, sb = State(initial=True), State()
+    sm_ns.update({"a": sa, "b": sb,
+                  "go": sa.to(sb, cond="ok", validators="vld") | sb.to(sa, cond="ok",
+                                                                         validators="vld")})
+    mod_ns = {"state": None}
+    lis_ns = {}
+    if who == "machine":
+        sm_ns[point] = provider_ns[point]
+    elif who == "model":
+        mod_ns.update(provider_ns)
+    else:
+        lis_ns.update(provider_ns)
+    cls = StateMachineMetaclass("MI", (StateMachine,), sm_ns)
+
+    def drive():
+        sm = cls(type("Mod", (), mod_ns)(), listeners=[type("A", (), lis_ns)()])
+        r = sm.activate_initial_state()
+        if asyn and hasattr(r, "__await__"):
+            from ..drive import loop
+            loop().run_until_complete(r)
+        marks = [len(log)]
+        for _ in range(3):
+            r = sm.send("go")
+            if hasattr(r, "__await__"):
+                from ..drive import loop
+                loop().run_until_complete(r)
+            marks.append(len(log))
+        return sm, marks
+
+    try:
+        sm, marks = drive()
+    except Exception as e:   # noqa: BLE001
+        return (f"raised {type(e).__name__}: {e} (callbacks so far: "
+                f"{[x[:2] for x in log][-6:]})")
+    if sm.current_state_value != "b":
+        return f"after three events the state is {sm.current_state_value}, expected b"
+    segs = [log[:marks[0]]] + [log[marks[i]:marks[i + 1]] for i in range(3)]
+    attach_seg = {"activation": 0, "first-event": 1, "second-event": 2}[at]
+    for si, seg in enumerate(segs):
+        ev = "__initial__" if si == 0 else "go"
+        own = ("sm", "P") if who == "machine" else ("sm",)
+        machine_groups = [g for (l_, g, _e) in seg if l_ in own and g in IN_GROUPS]
+        want_m = ["on_enter_state"] if si == 0 else list(IN_GROUPS)
+        if machine_groups != want_m:
+            return f"event {si} ({ev}): the machine's own callbacks ran as {machine_groups}"
+        got_b = [g for (l_, g, _e) in seg if l_ == "B"]
+        if si < attach_seg:
+            want_lo = want_hi = []
+        elif si > attach_seg:
+            want_lo = want_hi = list(IN_GROUPS)
+        else:
+            order = ["vld", "ok"] + list(IN_GROUPS)
+            k = order.index(point)
+            later = [g for g in order[k + 1:] if g in IN_GROUPS]
+            if si == 0:
+                later = []
+            want_lo = later
+            want_hi = ([point] if point in IN_GROUPS else []) + later
+        if got_b not in (want_lo, want_hi):
+            return (f"event {si} ({ev}): the listener attached inside `{point}` received "
+                    f"{got_b}, expected {want_lo}" +
+                    (f" (or {want_hi})" if want_hi != want_lo else ""))
+    return None
+
+
 # -- one listeners list given to several machines ------------------------------------------------
 
 SHARED_OPS = ("new", "add0", "add1", "send0", "send1", "caller-append")
@@ -432,6 +557,26 @@ def run_shared(seq, asyn, container="list"):
 
 
 def worker(block):
+    if block[1] == "incb":
+        res = BlockResult()
+        for case in in_callback_cases():
+            try:
+                with deadline(30):
+                    msg = run_in_callback(*case)
+            except Hang:
+                msg = "hung"
+            res.stats["states"] += 1
+            res.stats["evaluations"] += 1
+            res.stats["transitions"] += 3
+            res.hist["attached-inside-callback"] += 1
+            if msg:
+                asyn, point, who, at = case
+                res.violation({"category": "attach-inside-callback",
+                               "engine": "async" if asyn else "sync"},
+                              {"incb": list(case)},
+                              f"[{'async' if asyn else 'sync'}] add_listener() called from the "
+                              f"{who}'s `{point}` during the {at}: {msg}")
+        return res
     if block[1] == "shared":
         res = BlockResult()
         for seq in shared_sequences(4 if block[0] == "quick" else 5)[block[2]:block[3]]:
@@ -554,6 +699,7 @@ def run(tier, seed):
     blocks += [(tier, "expr", i, min(i + 6, ne)) for i in range(0, ne, 6)]
     na = len(attr_scenarios())
     blocks += [(tier, "attr", i, min(i + 400, na)) for i in range(0, na, 400)]
+    blocks.append((tier, "incb", 0, 0))
     nsh = len(shared_sequences(4 if tier == "quick" else 5))
     blocks += [(tier, "shared", i, min(i + 200, nsh)) for i in range(0, nsh, 200)]
     total, capped = run_blocks(worker, blocks, seed=seed)
@@ -581,6 +727,8 @@ def run(tier, seed):
 
 
 def replay(sc):
+    if "incb" in sc:
+        return run_in_callback(*sc["incb"])
     if "shared" in sc:
         return run_shared(tuple(sc["shared"]), sc["asyn"], sc["container"])
     if "attr" in sc:
